@@ -8,6 +8,7 @@ Open Scope N_scope.
 
 (* ---- effects leave the non-metadata fields alone ------------------------------------------- *)
 Lemma apply_eff_chain s e : chain (apply_eff s e) = chain s. Proof. destruct e; reflexivity. Qed.
+Lemma apply_eff_base s e : base (apply_eff s e) = base s. Proof. destruct e; reflexivity. Qed.
 Lemma apply_eff_hm s e : hm (apply_eff s e) = hm s. Proof. destruct e; reflexivity. Qed.
 Lemma apply_eff_dm s e : dm (apply_eff s e) = dm s. Proof. destruct e; reflexivity. Qed.
 Lemma apply_eff_svh s e : sv_h (apply_eff s e) = sv_h s. Proof. destruct e; reflexivity. Qed.
@@ -15,19 +16,19 @@ Lemma apply_eff_svd s e : sv_d (apply_eff s e) = sv_d s. Proof. destruct e; refl
 
 Lemma apply_effs_fields es : forall s,
   chain (apply_effs s es) = chain s /\ hm (apply_effs s es) = hm s /\ dm (apply_effs s es) = dm s /\
-  sv_h (apply_effs s es) = sv_h s /\ sv_d (apply_effs s es) = sv_d s.
+  sv_h (apply_effs s es) = sv_h s /\ sv_d (apply_effs s es) = sv_d s /\ base (apply_effs s es) = base s.
 Proof.
   induction es as [|e es IH]; intros s; [repeat split|].
   unfold apply_effs in *; cbn [fold_left].
-  destruct (IH (apply_eff s e)) as (A & B & C & D & E).
-  rewrite A, B, C, D, E, apply_eff_chain, apply_eff_hm, apply_eff_dm, apply_eff_svh, apply_eff_svd.
+  destruct (IH (apply_eff s e)) as (A & B & C & D & E & F).
+  rewrite A, B, C, D, E, F, apply_eff_chain, apply_eff_hm, apply_eff_dm, apply_eff_svh, apply_eff_svd, apply_eff_base.
   repeat split.
 Qed.
 
 (* ---- the invariant ------------------------------------------------------------------------------ *)
 Definition sound_at (h : list item) (s : node) (n : N) : Prop :=
   exists b hda dda,
-    block_at (chain s) n = Some b /\
+    block_at s n = Some b /\
     meta_get (meta s) (KH n) = Some hda /\ meta_get (meta s) (KT n) = Some dda /\
     In (IMarkH (bh b) hda) h /\
     (if bempty b then dda = hda else In (IMarkD (bd b) dda) h).
@@ -38,20 +39,21 @@ Definition prov (h : list item) (s : node) : Prop :=
   (forall id da, mget (dm s) id = Some da -> In (IMarkD id da) h) /\
   (forall id da, mget (sv_d s) id = Some da -> In (IMarkD id da) h).
 
-Notation K s := (kd (meta s)).
+Notation K s := (kd s).
 
 Record Inv (h : list item) (s : node) : Prop := {
   i_kd : K s = di s \/ K s = di s + 1;
+  i_base : base s <= di s;
   i_le : K s <= sheight s;
-  i_desc : desc (dputs (tr s)) (K s);
-  i_fin : exists m, (m = K s \/ m = K s + 1) /\ finsok (fins (tr s)) m;
+  i_desc : desc (base s) (dputs (tr s)) (K s);
+  i_fin : exists m, (m = K s \/ m = K s + 1) /\ finsok (base s) (fins (tr s)) m;
   i_abr : asked_before (tr s);
   i_pab : persisted_before (tr s);
-  i_sound : forall n, 1 <= n <= K s -> sound_at h s n;
+  i_sound : forall n, base s < n <= K s -> sound_at h s n;
   i_prov : prov h s
 }.
 
-Lemma finsok_le l : forall m x, finsok l m -> In x l -> x <= m.
+Lemma finsok_le b l : forall m x, finsok b l m -> In x l -> x <= m.
 Proof.
   induction l as [|y l IH]; intros m x Hf Hin; [destruct Hin|].
   cbn in Hf. destruct Hf as (E & Hpos & Hr). destruct Hin as [->|Hin]; [lia|].
@@ -71,6 +73,15 @@ Proof.
   rewrite apply_eff_hm, apply_eff_dm, apply_eff_svh, apply_eff_svd. repeat split; assumption.
 Qed.
 
+Lemma sound_at_eff h s e n :
+  (forall k, (k = KH n \/ k = KT n) -> meta_get (meta (apply_eff s e)) k = meta_get (meta s) k) ->
+  sound_at h s n -> sound_at h (apply_eff s e) n.
+Proof.
+  intros Hm (b & hda & dda & Hb & Hh & Hd & Hrest). exists b, hda, dda.
+  unfold block_at in *. rewrite apply_eff_base, apply_eff_chain.
+  split; [exact Hb|]. rewrite !Hm by auto. split; [exact Hh | split; [exact Hd | exact Hrest]].
+Qed.
+
 (* a Put of rhb/<n>/h or rhb/<n>/d for a height above the persisted one *)
 Lemma eff_rhb h s k v n :
   Inv h s -> (k = KH n \/ k = KT n) -> K s < n -> Inv h (apply_eff s (EPut k v)).
@@ -78,38 +89,42 @@ Proof.
   intros I Hk Hn.
   assert (Hkd : mkey_eqb KD k = false) by (destruct Hk; subst; reflexivity).
   assert (HK : K (apply_eff s (EPut k v)) = K s).
-  { unfold kd; cbn [apply_eff meta meta_get]. rewrite Hkd; reflexivity. }
-  constructor; rewrite ?HK.
+  { unfold kd; cbn [apply_eff meta meta_get base]. rewrite Hkd; reflexivity. }
+  constructor; rewrite ?HK, ?apply_eff_base.
   - exact (i_kd _ _ I).
-  - unfold sheight; rewrite apply_eff_chain. apply (i_le _ _ I).
+  - exact (i_base _ _ I).
+  - unfold sheight; rewrite apply_eff_chain, apply_eff_base. apply (i_le _ _ I).
   - replace (dputs (tr (apply_eff s (EPut k v)))) with (dputs (tr s)); [apply (i_desc _ _ I)|].
     destruct Hk; subst; reflexivity.
   - exact (i_fin _ _ I).
   - destruct Hk; subst; cbn; apply (i_abr _ _ I).
   - destruct Hk; subst; cbn; apply (i_pab _ _ I).
-  - intros n' Hn'. destruct (i_sound _ _ I n' Hn') as (b & hda & dda & Hb & Hh & Hd & Hrest).
-    exists b, hda, dda. rewrite apply_eff_chain. split; [exact Hb|].
+  - intros n' Hn'. apply sound_at_eff; [|apply (i_sound _ _ I n' Hn')].
     assert (Hne : (n' =? n) = false) by (apply N.eqb_neq; lia).
-    split; [|split; [|exact Hrest]]; cbn [apply_eff meta meta_get];
-      destruct Hk; subst; cbn [mkey_eqb]; try rewrite Hne; assumption.
+    intros k' Hk'. cbn [apply_eff meta meta_get].
+    destruct Hk, Hk'; subst; cbn [mkey_eqb]; rewrite ?Hne; reflexivity.
   - apply prov_eff, (i_prov _ _ I).
 Qed.
 
 (* SetFinal of the next height *)
 Lemma eff_fin h s n : Inv h s -> n = K s + 1 -> Inv h (apply_eff s (EFin n)).
 Proof.
-  intros I ->. constructor; cbn [apply_eff meta di tr chain hm dm sv_h sv_d].
+  intros I ->.
+  assert (HK : K (apply_eff s (EFin (K s + 1))) = K s) by reflexivity.
+  constructor; rewrite ?HK, ?apply_eff_base.
   - apply (i_kd _ _ I).
+  - apply (i_base _ _ I).
   - apply (i_le _ _ I).
   - apply (i_desc _ _ I).
   - exists (K s + 1). split; [right; reflexivity|].
-    unfold fins; cbn [flat_map app]. fold (fins (tr s)).
+    cbn [apply_eff tr]. unfold fins; cbn [flat_map app]. fold (fins (tr s)).
+    pose proof (i_base _ _ I) as Hb. pose proof (i_kd _ _ I) as Hkd.
     destruct (i_fin _ _ I) as (m & [->| ->] & Hf); cbn; (split; [reflexivity|split; [lia|]]).
     + right. replace (K s + 1 - 1) with (K s) by lia. exact Hf.
     + left. exact Hf.
   - cbn. apply (i_abr _ _ I).
   - cbn. apply (i_pab _ _ I).
-  - intros n Hn. destruct (i_sound _ _ I n Hn) as (b & hda & dda & H). exists b, hda, dda. exact H.
+  - intros n Hn. apply sound_at_eff; [reflexivity | apply (i_sound _ _ I n Hn)].
   - apply (i_prov _ _ I).
 Qed.
 
@@ -121,24 +136,24 @@ Proof.
   intros I HK -> Hin Hs Hle.
   assert (HK' : K (apply_eff s (EPut KD (K s + 1))) = K s + 1) by reflexivity.
   split; [|exact HK'].
-  constructor; rewrite ?HK'; cbn [apply_eff di tr chain hm dm sv_h sv_d].
-  - right. lia.
+  pose proof (i_base _ _ I) as Hb.
+  constructor; rewrite ?HK', ?apply_eff_base.
+  - right. cbn [apply_eff di]. lia.
+  - exact Hb.
   - exact Hle.
-  - unfold dputs; cbn [flat_map app]. fold (dputs (tr s)). cbn. split; [reflexivity|split; [lia|]].
+  - cbn [apply_eff tr]. unfold dputs; cbn [flat_map app]. fold (dputs (tr s)). cbn. split; [reflexivity|split; [lia|]].
     replace (K s + 1 - 1) with (K s) by lia. apply (i_desc _ _ I).
   - exists (K s + 1). split; [left; reflexivity|].
-    unfold fins; cbn [flat_map app]. fold (fins (tr s)).
+    cbn [apply_eff tr]. unfold fins; cbn [flat_map app]. fold (fins (tr s)).
     destruct (i_fin _ _ I) as (m & Hm & Hf).
-    pose proof (finsok_le _ _ _ Hf (in_fins _ _ Hin)) as Hx.
+    pose proof (finsok_le _ _ _ _ Hf (in_fins _ _ Hin)) as Hx.
     assert (m = K s + 1) as <- by lia. exact Hf.
   - cbn. split; [exact Hin | apply (i_abr _ _ I)].
   - cbn. apply (i_pab _ _ I).
   - intros n Hn.
-    assert (Hput : forall n', sound_at h s n' ->
-              sound_at h {| chain := chain s; meta := (KD, K s + 1) :: meta s; sv_h := sv_h s; sv_d := sv_d s;
-                            di := di s; hm := hm s; dm := dm s; tr := EPut KD (K s + 1) :: tr s |} n').
-    { intros n' (b & hda & dda & Hb & Hh & Hd & Hi & Hrest). exists b, hda, dda.
-      cbn [chain meta meta_get mkey_eqb]. split; [exact Hb|split; [exact Hh|split; [exact Hd|split; [exact Hi|exact Hrest]]]]. }
+    assert (Hput : forall n', sound_at h s n' -> sound_at h (apply_eff s (EPut KD (K s + 1))) n').
+    { intros n' Hs'. apply sound_at_eff; [|exact Hs'].
+      intros k' Hk'. cbn [apply_eff meta meta_get]. destruct Hk'; subst; reflexivity. }
     destruct (N.eq_dec n (K s + 1)) as [->|Hne]; apply Hput; [exact Hs|].
     apply (i_sound _ _ I). lia.
   - apply (i_prov _ _ I).
@@ -150,14 +165,16 @@ Lemma eff_pub h s n :
   Inv h (apply_eff s (EPub n)) /\ K (apply_eff s (EPub n)) = di (apply_eff s (EPub n)).
 Proof.
   intros I -> HK Hin. split; [|reflexivity].
-  constructor; cbn [apply_eff meta di tr chain hm dm sv_h sv_d].
+  assert (HK' : K (apply_eff s (EPub (K s))) = K s) by reflexivity.
+  constructor; rewrite ?HK', ?apply_eff_base.
   - left; reflexivity.
+  - cbn [apply_eff di]. pose proof (i_base _ _ I). lia.
   - apply (i_le _ _ I).
   - apply (i_desc _ _ I).
   - apply (i_fin _ _ I).
   - cbn. apply (i_abr _ _ I).
   - cbn. split; [exact Hin | apply (i_pab _ _ I)].
-  - intros n Hn. destruct (i_sound _ _ I n Hn) as (b & hda & dda & H). exists b, hda, dda. exact H.
+  - intros n Hn. apply sound_at_eff; [reflexivity | apply (i_sound _ _ I n Hn)].
   - apply (i_prov _ _ I).
 Qed.
 
@@ -166,19 +183,19 @@ Proof. induction pre; cbn; auto. Qed.
 
 (* a run of the includer, cut after any number of effects *)
 Lemma incl_inv h : forall bs s k pre,
-  Inv h s -> K s = di s -> chain s = pre ++ bs -> length pre = N.to_nat (di s) ->
+  Inv h s -> K s = di s -> chain s = pre ++ bs -> length pre = N.to_nat (di s - base s) ->
   let es := incl_effs (hm s) (dm s) bs (di s) in
   let s' := apply_effs s (firstn k es) in
   Inv h s' /\ di s <= di s' /\ ((length es <= k)%nat -> K s' = di s').
 Proof.
-  induction bs as [|ob r IH]; intros s k pre I HK Hc Hl; cbn zeta.
+  induction bs as [|b r IH]; intros s k pre I HK Hc Hl; cbn zeta.
   - cbn [incl_effs]. rewrite firstn_nil. cbn. (split; [exact I | split; [lia | auto]]).
-  - destruct ob as [b|]; cbn [incl_effs];
-      [|rewrite firstn_nil; cbn; (split; [exact I | split; [lia | auto]])].
+  - cbn [incl_effs].
     destruct (mget (hm s) (bh b)) as [hda|] eqn:Hh;
       [|rewrite firstn_nil; cbn; (split; [exact I | split; [lia | auto]])].
     destruct (if bempty b then Some hda else mget (dm s) (bd b)) as [dda|] eqn:Hd;
       [|rewrite firstn_nil; cbn; (split; [exact I | split; [lia | auto]])].
+    pose proof (i_base _ _ I) as Hbase.
     set (e1 := EPut (KH (di s + 1)) hda). set (e2 := EPut (KT (di s + 1)) dda).
     set (e3 := EFin (di s + 1)). set (e4 := EPut KD (di s + 1)). set (e5 := EPub (di s + 1)).
     assert (I1 : Inv h (apply_eff s e1)) by (eapply eff_rhb; [exact I | left; reflexivity | lia]).
@@ -193,10 +210,11 @@ Proof.
     { rewrite K3. exact HK. }
     { lia. }
     { left; reflexivity. }
-    { exists b, hda, dda. cbn [apply_eff chain meta meta_get mkey_eqb di e1 e2 e3].
+    { exists b, hda, dda. unfold block_at.
+      cbn [apply_eff chain base meta meta_get mkey_eqb di e1 e2 e3].
       rewrite N.eqb_refl. split; [|split; [reflexivity|split; [reflexivity|]]].
-      + unfold block_at. replace (di s + 1 =? 0) with false by (symmetry; apply N.eqb_neq; lia).
-        replace (N.to_nat (di s + 1 - 1)) with (length pre) by lia. rewrite Hc, nth_error_mid. reflexivity.
+      + replace (di s + 1 <=? base s) with false by (symmetry; apply N.leb_gt; lia).
+        replace (N.to_nat (di s + 1 - base s - 1)) with (length pre) by lia. rewrite Hc. apply nth_error_mid.
       + destruct (i_prov _ _ I) as (A & _ & C & _). split; [apply A, Hh|].
         destruct (bempty b); [congruence | apply C, Hd]. }
     { exact Hlen. }
@@ -214,23 +232,27 @@ Proof.
     + (split; [exact I4 | split; [cbn; lia | lia]]).
     + set (s5 := apply_eff (apply_eff (apply_eff (apply_eff (apply_eff s e1) e2) e3) e4) e5) in *.
       assert (Hd5 : di s5 = di s + 1) by reflexivity.
-      specialize (IH s5 k (pre ++ [Some b]) I5 K5).
+      specialize (IH s5 k (pre ++ [b]) I5 K5).
       replace (hm s) with (hm s5) by reflexivity. replace (dm s) with (dm s5) by reflexivity.
       rewrite <- Hd5.
       destruct IH as (IA & IB & IC).
       * change (chain s5) with (chain s). rewrite Hc, <- app_assoc. reflexivity.
-      * rewrite app_length, Hd5. cbn [length]. lia.
+      * rewrite app_length, Hd5. change (base s5) with (base s). cbn [length]. lia.
       * unfold apply_effs in *. (split; [exact IA | split; [lia | intros Hk; apply IC; lia]]).
 Qed.
+
+Lemma include_effs_ge s : base s <= di s ->
+  include_effs s = incl_effs (hm s) (dm s) (skipn (N.to_nat (di s - base s)) (chain s)) (di s).
+Proof. intros H. unfold include_effs. replace (di s <? base s) with false by (symmetry; apply N.ltb_ge; lia). reflexivity. Qed.
 
 Lemma dying_inv h s k :
   Inv h s -> K s = di s ->
   Inv h (dying s k) /\ di s <= di (dying s k) /\ ((length (include_effs s) <= k)%nat -> K (dying s k) = di (dying s k)).
 Proof.
-  intros I HK. unfold dying, include_effs.
-  apply (incl_inv h _ s k (firstn (N.to_nat (di s)) (chain s)) I HK).
+  intros I HK. unfold dying. rewrite (include_effs_ge s (i_base _ _ I)).
+  apply (incl_inv h _ s k (firstn (N.to_nat (di s - base s)) (chain s)) I HK).
   - symmetry; apply firstn_skipn.
-  - rewrite firstn_length. pose proof (i_le _ _ I) as Hle. unfold sheight in Hle. lia.
+  - rewrite firstn_length. pose proof (i_le _ _ I) as Hle. pose proof (i_base _ _ I). unfold sheight in Hle. lia.
 Qed.
 
 Lemma inv_weaken h h' s : (forall x, In x h -> In x h') -> Inv h s -> Inv h' s.
@@ -244,189 +266,195 @@ Qed.
 
 Lemma boot_inv h s : Inv h s -> Inv h (boot s) /\ K (boot s) = di (boot s) /\ di s <= di (boot s).
 Proof.
-  intros I. split; [|split; [reflexivity | cbn; destruct (i_kd _ _ I); lia]].
-  constructor; cbn [boot chain meta sv_h sv_d di hm dm tr]; try apply I.
+  intros I. split; [|split; [reflexivity | cbn [boot di]; destruct (i_kd _ _ I); lia]].
+  assert (HK : K (boot s) = K s) by reflexivity.
+  constructor; rewrite ?HK; try apply I.
   - left; reflexivity.
+  - cbn [boot base di]. pose proof (i_base _ _ I). destruct (i_kd _ _ I); lia.
   - destruct (i_prov _ _ I) as (A & B & C & D). repeat split; assumption.
 Qed.
 
 Lemma save_inv h s : Inv h s -> Inv h (save s).
 Proof.
-  intros I. constructor; cbn [save chain meta sv_h sv_d di hm dm tr]; try apply I.
+  intros I. assert (HK : K (save s) = K s) by reflexivity.
+  constructor; rewrite ?HK; try apply I.
   destruct (i_prov _ _ I) as (A & B & C & D). repeat split; assumption.
-Qed.
-
-Lemma block_at_app c x n b : block_at c n = Some b -> block_at (c ++ [x]) n = Some b.
-Proof.
-  unfold block_at. destruct (n =? 0); [discriminate|].
-  destruct (nth_error c (N.to_nat (n - 1))) as [ob|] eqn:E; [|discriminate].
-  rewrite nth_error_app1; [rewrite E; auto|]. apply nth_error_Some. congruence.
 Qed.
 
 Definition QInv (h : list item) (s : node) : Prop := Inv h s /\ K s = di s.
 
-Lemma step_inv h s i : QInv h s -> QInv (h ++ [i]) (step s i) /\ di s <= di (step s i).
+Lemma step_inv h s i : QInv h s -> QInv (h ++ [i]) (step s i) /\ di s <= di (step s i) /\ base (step s i) = base s.
 Proof.
   intros (I0 & HK).
   assert (I : Inv (h ++ [i]) s) by (eapply inv_weaken; [|exact I0]; intros x Hx; apply in_or_app; left; exact Hx).
   assert (Hlast : In i (h ++ [i])) by (apply in_or_app; right; left; reflexivity).
-  assert (Happ : forall x, Inv (h ++ [i])
-            {| chain := chain s ++ [x]; meta := meta s; sv_h := sv_h s; sv_d := sv_d s;
-               di := di s; hm := hm s; dm := dm s; tr := tr s |}).
-  { intros x. constructor; cbn [chain meta sv_h sv_d di hm dm tr]; try apply I.
-    - pose proof (i_le _ _ I) as Hle. unfold sheight in *. cbn [chain]. rewrite app_length. cbn [length]. lia.
-    - intros n Hn. destruct (i_sound _ _ I n Hn) as (y & hda & dda & Hb & Hrest).
-      exists y, hda, dda. split; [apply block_at_app, Hb | exact Hrest]. }
-  destruct i as [|b|id da|id da| |k|k|]; cbn [step].
-  - split; [split; [apply Happ | exact HK] | cbn; lia].
-  - split; [split; [apply Happ | exact HK] | cbn; lia].
-  - split; [split; [|exact HK]|cbn; lia]. constructor; cbn [chain meta sv_h sv_d di hm dm tr]; try apply I.
+  destruct i as [b|id da|id da| |k|k|]; cbn [step].
+  - split; [split; [|exact HK]|split; [cbn; lia | reflexivity]].
+    constructor; try apply I.
+    + pose proof (i_le _ _ I) as Hle. unfold sheight in *. cbn [chain base]. rewrite app_length. cbn [length].
+      change (K {| base := base s; chain := chain s ++ [b]; meta := meta s; sv_h := sv_h s; sv_d := sv_d s;
+                   di := di s; hm := hm s; dm := dm s; tr := tr s |}) with (K s). lia.
+    + intros n Hn. destruct (i_sound _ _ I n Hn) as (y & hda & dda & Hb & Hrest).
+      exists y, hda, dda. split; [|exact Hrest].
+      unfold block_at in *. cbn [base chain]. destruct (n <=? base s); [discriminate|].
+      rewrite nth_error_app1; [exact Hb|]. apply nth_error_Some. congruence.
+  - split; [split; [|exact HK]|split; [cbn; lia | reflexivity]]. constructor; try apply I.
     destruct (i_prov _ _ I) as (A & B & C & D). repeat split; try assumption.
     cbn [hm mget]. intros id' da'. destruct (id' =? id) eqn:E; [|apply A].
     intros H; inversion H; subst. apply N.eqb_eq in E; subst. exact Hlast.
-  - split; [split; [|exact HK]|cbn; lia]. constructor; cbn [chain meta sv_h sv_d di hm dm tr]; try apply I.
+  - split; [split; [|exact HK]|split; [cbn; lia | reflexivity]]. constructor; try apply I.
     destruct (i_prov _ _ I) as (A & B & C & D). repeat split; try assumption.
     cbn [dm mget]. intros id' da'. destruct (id' =? id) eqn:E; [|apply C].
     intros H; inversion H; subst. apply N.eqb_eq in E; subst. exact Hlast.
   - destruct (dying_inv _ s (length (include_effs s)) I HK) as (IA & IB & IC).
-    unfold dying in *. rewrite firstn_all in *. split; [split; [exact IA | apply IC; lia] | exact IB].
+    unfold dying in *. rewrite firstn_all in *.
+    split; [split; [exact IA | apply IC; lia] | split; [exact IB | apply apply_effs_fields]].
   - destruct (dying_inv _ s k I HK) as (IA & IB & _).
-    destruct (boot_inv _ _ IA) as (IC & ID & IE). split; [split; assumption | lia].
+    destruct (boot_inv _ _ IA) as (IC & ID & IE).
+    split; [split; assumption | split; [lia | cbn [boot base]; apply apply_effs_fields]].
   - destruct (dying_inv _ s k I HK) as (IA & IB & _).
-    destruct (boot_inv _ _ (save_inv _ _ IA)) as (IC & ID & IE). split; [split; assumption | cbn in *; lia].
-  - destruct (boot_inv _ _ (save_inv _ _ I)) as (IC & ID & IE). split; [split; assumption | cbn in *; lia].
+    destruct (boot_inv _ _ (save_inv _ _ IA)) as (IC & ID & IE).
+    split; [split; assumption | split; [cbn in *; lia | cbn [boot save base]; apply apply_effs_fields]].
+  - destruct (boot_inv _ _ (save_inv _ _ I)) as (IC & ID & IE).
+    split; [split; assumption | split; [cbn in *; lia | reflexivity]].
 Qed.
 
-Lemma init_inv : QInv [] init.
+Lemma init_inv b : QInv [] (init b).
 Proof.
   split; [|reflexivity]. constructor.
   - left; reflexivity.
   - cbn; lia.
+  - unfold kd, sheight; cbn; lia.
   - reflexivity.
-  - exists 0. split; [left|]; reflexivity.
+  - exists b. split; [left|]; reflexivity.
   - exact I.
   - exact I.
-  - cbn; intros n Hn; lia.
+  - unfold kd; cbn; intros n Hn; lia.
   - repeat split; intros id da H; discriminate H.
 Qed.
 
-Lemma run_snoc h i : run (h ++ [i]) = step (run h) i.
+Lemma run_snoc b h i : run b (h ++ [i]) = step (run b h) i.
 Proof. unfold run, run_from. rewrite fold_left_app. reflexivity. Qed.
 
-Lemma run_app h h' : run (h ++ h') = run_from (run h) h'.
+Lemma run_app b h h' : run b (h ++ h') = run_from (run b h) h'.
 Proof. unfold run, run_from. apply fold_left_app. Qed.
 
-Theorem run_inv : forall h, QInv h (run h).
+Theorem run_inv : forall b h, QInv h (run b h) /\ base (run b h) = b.
 Proof.
-  induction h as [|i h IH] using rev_ind; [exact init_inv|].
-  rewrite run_snoc. apply step_inv, IH.
+  intros b. induction h as [|i h IH] using rev_ind; [split; [exact (init_inv b) | reflexivity]|].
+  rewrite run_snoc. destruct IH as (IH & Hb). destruct (step_inv _ _ i IH) as (A & _ & B).
+  split; [exact A | congruence].
 Qed.
 
 (* ---- C07 safety ---------------------------------------------------------------------------------- *)
-Lemma monotone_run : forall h h', rep (run h) <= rep (run (h ++ h')).
+Lemma monotone_run : forall b h h', rep (run b h) <= rep (run b (h ++ h')).
 Proof.
-  intros h h'. induction h' as [|i h' IH] using rev_ind.
+  intros b h h'. induction h' as [|i h' IH] using rev_ind.
   - rewrite app_nil_r. lia.
   - rewrite app_assoc, run_snoc.
-    destruct (step_inv _ _ i (run_inv (h ++ h'))) as (_ & Hm). unfold rep in *. lia.
+    destruct (step_inv _ _ i (proj1 (run_inv b (h ++ h')))) as (_ & Hm & _). unfold rep in *. lia.
 Qed.
 
 (* every instant: after a history, or k effects into an includer run at which the process dies / a write fails *)
-Theorem monotone : forall (h h' : list item) (k : nat),
-  rep (run h) <= rep (run (h ++ h')) /\
-  rep (run h) <= seen_at_death h k /\
-  seen_at_death h k <= rep (run (h ++ ICrash k :: h')) /\
-  seen_at_death h k <= rep (run (h ++ IFault k :: h')).
+Theorem monotone : forall (b : N) (h h' : list item) (k : nat),
+  rep (run b h) <= rep (run b (h ++ h')) /\
+  rep (run b h) <= seen_at_death b h k /\
+  seen_at_death b h k <= rep (run b (h ++ ICrash k :: h')) /\
+  seen_at_death b h k <= rep (run b (h ++ IFault k :: h')).
 Proof.
-  intros h h' k. destruct (run_inv h) as (I & HK).
+  intros b h h' k. destruct (run_inv b h) as ((I & HK) & _).
   destruct (dying_inv _ _ k I HK) as (IA & IB & _).
   split; [apply monotone_run|]. split; [exact IB|].
   unfold seen_at_death, rep.
   split.
-  - pose proof (monotone_run (h ++ [ICrash k]) h') as M. rewrite <- app_assoc in M. cbn [app] in M.
+  - pose proof (monotone_run b (h ++ [ICrash k]) h') as M. rewrite <- app_assoc in M. cbn [app] in M.
     rewrite run_snoc in M. cbn [step] in M. unfold rep in M.
     destruct (boot_inv _ _ IA) as (_ & _ & IE). lia.
-  - pose proof (monotone_run (h ++ [IFault k]) h') as M. rewrite <- app_assoc in M. cbn [app] in M.
+  - pose proof (monotone_run b (h ++ [IFault k]) h') as M. rewrite <- app_assoc in M. cbn [app] in M.
     rewrite run_snoc in M. cbn [step] in M. unfold rep in M.
     destruct (boot_inv _ _ (save_inv _ _ IA)) as (_ & _ & IE).
-    change (di (save (dying (run h) k))) with (di (dying (run h) k)) in IE. lia.
+    change (di (save (dying (run b h) k))) with (di (dying (run b h) k)) in IE. lia.
 Qed.
 
-Theorem durable : forall h k,
-  rep (run (h ++ [IRestart])) = rep (run h) /\
-  rep (run (h ++ [ICrash 0])) = rep (run h) /\
-  seen_at_death h k <= rep (run (h ++ [ICrash k])) <= seen_at_death h k + 1 /\
-  seen_at_death h k <= rep (run (h ++ [IFault k])) <= seen_at_death h k + 1.
+Theorem durable : forall b h k,
+  rep (run b (h ++ [IRestart])) = rep (run b h) /\
+  rep (run b (h ++ [ICrash 0])) = rep (run b h) /\
+  seen_at_death b h k <= rep (run b (h ++ [ICrash k])) <= seen_at_death b h k + 1 /\
+  seen_at_death b h k <= rep (run b (h ++ [IFault k])) <= seen_at_death b h k + 1.
 Proof.
-  intros h k. destruct (run_inv h) as (I & HK). rewrite !run_snoc. unfold rep, seen_at_death; cbn [step].
+  intros b h k. destruct (run_inv b h) as ((I & HK) & _). rewrite !run_snoc. unfold rep, seen_at_death; cbn [step].
   destruct (dying_inv _ _ k I HK) as (IA & IB & _).
   split; [|split; [|split]].
-  - cbn. exact HK.
-  - unfold dying. cbn [firstn apply_effs fold_left]. cbn. exact HK.
+  - cbn [boot di]. exact HK.
+  - unfold dying. cbn [firstn apply_effs fold_left boot di]. exact HK.
   - cbn [boot di]. destruct (i_kd _ _ IA); lia.
-  - cbn [boot save di meta]. destruct (i_kd _ _ IA); lia.
+  - cbn [boot di]. change (K (save (dying (run b h) k))) with (K (dying (run b h) k)). destruct (i_kd _ _ IA); lia.
 Qed.
 
-Theorem safety : forall h, let s := run h in
-  rep s <= sheight s /\
-  desc (dputs (tr s)) (rep s) /\
-  (exists m, (m = rep s \/ m = rep s + 1) /\ finsok (fins (tr s)) m) /\
+Theorem safety : forall b h, let s := run b h in
+  b <= rep s <= sheight s /\
+  desc b (dputs (tr s)) (rep s) /\
+  (exists m, (m = rep s \/ m = rep s + 1) /\ finsok b (fins (tr s)) m) /\
   asked_before (tr s) /\ persisted_before (tr s) /\
-  kd (meta s) = rep s.
+  kd s = rep s.
 Proof.
-  intros h s. destruct (run_inv h) as (I & HK). fold s in I, HK. unfold rep. rewrite <- HK.
-  repeat split; try apply I.
+  intros b h s. destruct (run_inv b h) as ((I & HK) & Hb). fold s in I, HK, Hb. unfold rep. rewrite <- HK, <- Hb.
+  pose proof (i_base _ _ I). pose proof (i_le _ _ I).
+  repeat split; try apply I; lia.
 Qed.
 
 (* the same at the instant of death / of a failing effect: the reported height is the persisted one or one less *)
-Theorem safety_at_death : forall h k, let s := dying (run h) k in
-  (kd (meta s) = di s \/ kd (meta s) = di s + 1) /\
-  kd (meta s) <= sheight s /\
-  desc (dputs (tr s)) (kd (meta s)) /\
-  (exists m, (m = kd (meta s) \/ m = kd (meta s) + 1) /\ finsok (fins (tr s)) m) /\
+Theorem safety_at_death : forall b h k, let s := dying (run b h) k in
+  (kd s = di s \/ kd s = di s + 1) /\ b <= di s /\
+  kd s <= sheight s /\
+  desc b (dputs (tr s)) (kd s) /\
+  (exists m, (m = kd s \/ m = kd s + 1) /\ finsok b (fins (tr s)) m) /\
   asked_before (tr s) /\ persisted_before (tr s).
 Proof.
-  intros h k s. destruct (run_inv h) as (I & HK). destruct (dying_inv _ _ k I HK) as (IA & _).
-  fold s in IA. repeat split; try apply IA.
+  intros b h k s. destruct (run_inv b h) as ((I & HK) & Hb). destruct (dying_inv _ _ k I HK) as (IA & _).
+  assert (Hb' : base s = b).
+  { unfold s, dying. destruct (apply_effs_fields (firstn k (include_effs (run b h))) (run b h)) as (_ & _ & _ & _ & _ & E).
+    rewrite E. exact Hb. }
+  fold s in IA. rewrite <- Hb'. repeat split; try apply IA.
 Qed.
 
-Theorem sound : forall h n, let s := run h in
-  1 <= n <= rep s ->
-  exists b hda dda,
-    block_at (chain s) n = Some b /\
+Theorem sound : forall b h n, let s := run b h in
+  b < n <= rep s ->
+  exists x hda dda,
+    block_at s n = Some x /\
     meta_get (meta s) (KH n) = Some hda /\ meta_get (meta s) (KT n) = Some dda /\
-    In (IMarkH (bh b) hda) h /\
-    (if bempty b then dda = hda else In (IMarkD (bd b) dda) h).
+    In (IMarkH (bh x) hda) h /\
+    (if bempty x then dda = hda else In (IMarkD (bd x) dda) h).
 Proof.
-  intros h n s Hn. subst s. destruct (run_inv h) as (I & HK). apply (i_sound _ _ I). unfold rep in Hn. lia.
+  intros b h n s Hn. subst s. destruct (run_inv b h) as ((I & HK) & Hb). apply (i_sound _ _ I). unfold rep in Hn. lia.
 Qed.
 
 (* also for every height visible at the instant of death *)
-Theorem sound_at_death : forall h k n, let s := dying (run h) k in
-  1 <= n <= di s ->
-  exists b hda dda,
-    block_at (chain s) n = Some b /\
+Theorem sound_at_death : forall b h k n, let s := dying (run b h) k in
+  b < n <= di s ->
+  exists x hda dda,
+    block_at s n = Some x /\
     meta_get (meta s) (KH n) = Some hda /\ meta_get (meta s) (KT n) = Some dda /\
-    In (IMarkH (bh b) hda) h /\
-    (if bempty b then dda = hda else In (IMarkD (bd b) dda) h).
+    In (IMarkH (bh x) hda) h /\
+    (if bempty x then dda = hda else In (IMarkD (bd x) dda) h).
 Proof.
-  intros h k n s Hn. subst s. destruct (run_inv h) as (I & HK). destruct (dying_inv _ _ k I HK) as (IA & _).
-  apply (i_sound _ _ IA). destruct (i_kd _ _ IA); lia.
+  intros b h k n s Hn. subst s. destruct (run_inv b h) as ((I & HK) & Hb). destruct (dying_inv _ _ k I HK) as (IA & _).
+  apply (i_sound _ _ IA).
+  assert (Hb' : base (dying (run b h) k) = b).
+  { unfold dying. destruct (apply_effs_fields (firstn k (include_effs (run b h))) (run b h)) as (_ & _ & _ & _ & _ & E).
+    rewrite E. exact Hb. }
+  destruct (i_kd _ _ IA); lia.
 Qed.
 
 (* ---- C07 liveness ----------------------------------------------------------------------------- *)
 (* IsDAIncluded for a stored block *)
-Definition inclb (hmk dmk : marks) (ob : option blk) : bool :=
-  match ob with
+Definition inclb (hmk dmk : marks) (b : blk) : bool :=
+  match mget hmk (bh b) with
   | None => false
-  | Some b =>
-      match mget hmk (bh b) with
-      | None => false
-      | Some _ => bempty b || match mget dmk (bd b) with Some _ => true | None => false end
-      end
+  | Some _ => bempty b || match mget dmk (bd b) with Some _ => true | None => false end
   end.
 (* number of leading blocks that are included *)
-Fixpoint lead (hmk dmk : marks) (bs : list (option blk)) : nat :=
+Fixpoint lead (hmk dmk : marks) (bs : list blk) : nat :=
   match bs with
   | [] => 0%nat
   | b :: r => if inclb hmk dmk b then S (lead hmk dmk r) else 0%nat
@@ -435,8 +463,7 @@ Fixpoint lead (hmk dmk : marks) (bs : list (option blk)) : nat :=
 Lemma di_incl hmk dmk : forall bs s,
   di (apply_effs s (incl_effs hmk dmk bs (di s))) = di s + N.of_nat (lead hmk dmk bs).
 Proof.
-  induction bs as [|ob r IH]; intros s; cbn [incl_effs lead]; [cbn; lia|].
-  destruct ob as [b|]; [|cbn; lia].
+  induction bs as [|b r IH]; intros s; cbn [incl_effs lead]; [cbn; lia|].
   unfold inclb. destruct (mget hmk (bh b)) as [hda|]; [|cbn; lia].
   destruct (bempty b); cbn [orb].
   - cbn [apply_effs fold_left].
@@ -477,89 +504,92 @@ Qed.
 
 Lemma dying_fields s k :
   chain (dying s k) = chain s /\ hm (dying s k) = hm s /\ dm (dying s k) = dm s /\
-  sv_h (dying s k) = sv_h s /\ sv_d (dying s k) = sv_d s.
+  sv_h (dying s k) = sv_h s /\ sv_d (dying s k) = sv_d s /\ base (dying s k) = base s.
 Proof. unfold dying. apply apply_effs_fields. Qed.
 
 (* marks produced after the last crash are in the cache *)
-Lemma live_h : forall h id, marked_h_since_crash (rev h) id = true -> mget (hm (run h)) id <> None.
+Lemma live_h b : forall h id, marked_h_since_crash (rev h) id = true -> mget (hm (run b h)) id <> None.
 Proof.
   induction h as [|i h IH] using rev_ind; intros id; [cbn; discriminate|].
   rewrite rev_app_distr, run_snoc. cbn [rev app marked_h_since_crash].
-  destruct i as [|b|i' da|i' da| |k|k|]; cbn [step hm]; intros H.
-  - apply IH, H.
+  destruct i as [x|i' da|i' da| |k|k|]; cbn [step hm]; intros H.
   - apply IH, H.
   - cbn [mget]. rewrite N.eqb_sym. destruct (i' =? id); [discriminate|]. apply IH, H.
   - apply IH, H.
-  - destruct (apply_effs_fields (include_effs (run h)) (run h)) as (_ & E & _). rewrite E. apply IH, H.
+  - destruct (apply_effs_fields (include_effs (run b h)) (run b h)) as (_ & E & _). rewrite E. apply IH, H.
   - discriminate H.
-  - cbn. destruct (dying_fields (run h) k) as (_ & E & _). rewrite E. apply IH, H.
+  - cbn. destruct (dying_fields (run b h) k) as (_ & E & _). rewrite E. apply IH, H.
   - cbn. apply IH, H.
 Qed.
 
-Lemma live_d : forall h id, marked_d_since_crash (rev h) id = true -> mget (dm (run h)) id <> None.
+Lemma live_d b : forall h id, marked_d_since_crash (rev h) id = true -> mget (dm (run b h)) id <> None.
 Proof.
   induction h as [|i h IH] using rev_ind; intros id; [cbn; discriminate|].
   rewrite rev_app_distr, run_snoc. cbn [rev app marked_d_since_crash].
-  destruct i as [|b|i' da|i' da| |k|k|]; cbn [step dm]; intros H.
-  - apply IH, H.
+  destruct i as [x|i' da|i' da| |k|k|]; cbn [step dm]; intros H.
   - apply IH, H.
   - apply IH, H.
   - cbn [mget]. rewrite N.eqb_sym. destruct (i' =? id); [discriminate|]. apply IH, H.
-  - destruct (apply_effs_fields (include_effs (run h)) (run h)) as (_ & _ & E & _). rewrite E. apply IH, H.
+  - destruct (apply_effs_fields (include_effs (run b h)) (run b h)) as (_ & _ & E & _). rewrite E. apply IH, H.
   - discriminate H.
-  - cbn. destruct (dying_fields (run h) k) as (_ & _ & E & _). rewrite E. apply IH, H.
+  - cbn. destruct (dying_fields (run b h) k) as (_ & _ & E & _). rewrite E. apply IH, H.
   - cbn. apply IH, H.
 Qed.
 
-Theorem eventually_guarded : forall h n,
-  n <= sheight (run h) ->
-  blocks_marked_since_crash h n = true ->
-  n <= rep (run (h ++ [IInclude])).
+(* for every initial height b+1 >= 1 *)
+Theorem eventually_guarded : forall b h n,
+  n <= sheight (run b h) ->
+  blocks_marked_since_crash b h n = true ->
+  n <= rep (run b (h ++ [IInclude])).
 Proof.
-  intros h n Hn Hg. rewrite run_snoc. cbn [step]. unfold rep, include_effs.
-  set (s := run h) in *. rewrite di_incl.
+  intros b h n Hn Hg. rewrite run_snoc. cbn [step]. unfold rep.
+  set (s := run b h) in *.
+  destruct (run_inv b h) as ((I & HK) & Hb). fold s in I, HK, Hb.
+  rewrite (include_effs_ge s (i_base _ _ I)), di_incl.
   destruct (N.le_gt_cases n (di s)) as [Hle|Hgt]; [lia|].
-  destruct (run_inv h) as (I & HK). fold s in I, HK.
-  pose proof (i_le _ _ I) as Hdi. unfold sheight in *.
-  assert (Hlead : (N.to_nat (n - di s) <= lead (hm s) (dm s) (skipn (N.to_nat (di s)) (chain s)))%nat).
+  pose proof (i_le _ _ I) as Hdi. pose proof (i_base _ _ I) as Hbase. unfold sheight in *.
+  assert (Hlead : (N.to_nat (n - di s) <= lead (hm s) (dm s) (skipn (N.to_nat (di s - base s)) (chain s)))%nat).
   { apply lead_ge; [rewrite skipn_length; lia|].
-    intros j ob Hj Hb. rewrite nth_error_skipn' in Hb.
-    unfold blocks_marked_since_crash in Hg. rewrite forallb_forall in Hg.
-    assert (Hin : In ob (firstn (N.to_nat n) (chain s))) by (eapply nth_error_in_firstn; [exact Hb | lia]).
-    specialize (Hg ob Hin). destruct ob as [b|]; [|discriminate]. apply andb_true_iff in Hg as (Hh & Hd).
-    pose proof (live_h h _ Hh) as Lh. fold s in Lh.
-    unfold inclb. destruct (mget (hm s) (bh b)); [|congruence].
-    destruct (bempty b); [reflexivity|]. cbn [orb] in *.
-    pose proof (live_d h _ Hd) as Ld. fold s in Ld.
-    destruct (mget (dm s) (bd b)); [reflexivity | congruence]. }
+    intros j x Hj Hx. rewrite nth_error_skipn' in Hx.
+    unfold blocks_marked_since_crash in Hg. fold s in Hg. rewrite forallb_forall in Hg.
+    assert (Hin : In x (firstn (N.to_nat (n - b)) (chain s))) by (eapply nth_error_in_firstn; [exact Hx | lia]).
+    specialize (Hg x Hin). apply andb_true_iff in Hg as (Hh & Hd).
+    pose proof (live_h b h _ Hh) as Lh. fold s in Lh.
+    unfold inclb. destruct (mget (hm s) (bh x)); [|congruence].
+    destruct (bempty x); [reflexivity|]. cbn [orb] in *.
+    pose proof (live_d b h _ Hd) as Ld. fold s in Ld.
+    destruct (mget (dm s) (bd x)); [reflexivity | congruence]. }
   lia.
 Qed.
 
 (* F9: the marks of an aggregator live only in memory.  After a crash nothing in the node re-creates them
    (the submitter's watermark is persisted, so the blobs are never submitted again): the height is stuck. *)
 Definition stuck (s : node) : Prop :=
-  di s = 0 /\ K s = 0 /\ (exists b r, chain s = Some b :: r /\ bh b = 1) /\
+  base s = 0 /\ di s = 0 /\ K s = 0 /\ (exists b r, chain s = b :: r /\ bh b = 1) /\
   mget (hm s) 1 = None /\ mget (sv_h s) 1 = None.
 
 Lemma stuck_effs s : stuck s -> include_effs s = [].
 Proof.
-  intros (Hd & _ & (b & r & Hc & Hb) & Hm & _). unfold include_effs.
-  rewrite Hd, Hc. cbn [N.to_nat skipn incl_effs]. rewrite Hb, Hm. reflexivity.
+  intros (H0 & Hd & _ & (b & r & Hc & Hb) & Hm & _). unfold include_effs.
+  rewrite Hd, H0, Hc. cbn [N.ltb N.compare N.sub N.to_nat skipn incl_effs]. rewrite Hb, Hm. reflexivity.
 Qed.
 
 Lemma stuck_step s i : stuck s -> is_markh i = false -> stuck (step s i).
 Proof.
   intros S Hi. pose proof (stuck_effs s S) as He.
-  destruct S as (Hd & Hk & (b & r & Hc & Hb) & Hm & Hs).
-  destruct i as [|x|id da|id da| |k|k|]; cbn [step]; try discriminate Hi; unfold dying; rewrite ?He, ?firstn_nil;
-    cbn [apply_effs fold_left].
-  - repeat split; cbn; try assumption. exists b, (r ++ [None]). rewrite Hc. split; [reflexivity | exact Hb].
-  - repeat split; cbn; try assumption. exists b, (r ++ [Some x]). rewrite Hc. split; [reflexivity | exact Hb].
-  - repeat split; cbn; try assumption. exists b, r. split; assumption.
-  - repeat split; try assumption. exists b, r. split; assumption.
-  - repeat split; cbn; try assumption. exists b, r. split; assumption.
-  - repeat split; cbn; try assumption. exists b, r. split; assumption.
-  - repeat split; cbn; try assumption. exists b, r. split; assumption.
+  destruct S as (H0 & Hd & Hk & (b & r & Hc & Hb) & Hm & Hs).
+  assert (Hk' : meta_get (meta s) KD = None \/ meta_get (meta s) KD = Some 0).
+  { unfold kd in Hk. destruct (meta_get (meta s) KD); [right; congruence | left; reflexivity]. }
+  destruct i as [x|id da|id da| |k|k|]; cbn [step]; try discriminate Hi; unfold dying; rewrite ?He, ?firstn_nil;
+    cbn [apply_effs fold_left]; unfold stuck, kd in *; cbn [boot save base di meta chain hm sv_h];
+    (split; [assumption|]); (split; [try assumption; rewrite ?H0; destruct Hk' as [->| ->]; reflexivity|]);
+    (split; [assumption|]); (split; [|split; assumption]).
+  - exists b, (r ++ [x]). rewrite Hc. split; [reflexivity | exact Hb].
+  - exists b, r. split; assumption.
+  - exists b, r. split; assumption.
+  - exists b, r. split; assumption.
+  - exists b, r. split; assumption.
+  - exists b, r. split; assumption.
 Qed.
 
 Lemma stuck_run : forall ext s, stuck s -> forallb (fun i => negb (is_markh i)) ext = true -> stuck (run_from s ext).
@@ -572,59 +602,25 @@ Qed.
 Definition f9_history : list item := [IAppend {| bh := 1; bd := 0 |}; IMarkH 1 10; ICrash 0].
 
 Theorem eventually_refuted :
-  exists h n,
-    n <= sheight (run h) /\ blocks_marked_ever h n = true /\
-    forall ext, forallb (fun i => negb (is_markh i)) ext = true -> rep (run (h ++ ext)) < n.
+  exists b h n,
+    n <= sheight (run b h) /\ blocks_marked_ever b h n = true /\
+    forall ext, forallb (fun i => negb (is_markh i)) ext = true -> rep (run b (h ++ ext)) < n.
 Proof.
-  exists f9_history, 1. split; [vm_compute; discriminate|]. split; [vm_compute; reflexivity|].
+  exists 0, f9_history, 1. split; [vm_compute; discriminate|]. split; [vm_compute; reflexivity|].
   intros ext H. rewrite run_app.
-  assert (S : stuck (run f9_history)).
+  assert (S : stuck (run 0 f9_history)).
   { unfold stuck. vm_compute. repeat split. eexists; eexists; split; reflexivity. }
-  destruct (stuck_run ext _ S H) as (Hd & _). unfold rep. rewrite Hd. lia.
+  destruct (stuck_run ext _ S H) as (_ & Hd & _). unfold rep. rewrite Hd. lia.
 Qed.
 
 (* so the unguarded liveness statement is false of the model *)
 Theorem eventually_full_is_false :
-  ~ (forall h n, n <= sheight (run h) -> blocks_marked_ever h n = true ->
-       exists k, n <= rep (run (h ++ repeat IInclude k))).
+  ~ (forall b h n, n <= sheight (run b h) -> blocks_marked_ever b h n = true ->
+       exists k, n <= rep (run b (h ++ repeat IInclude k))).
 Proof.
-  intros F. destruct eventually_refuted as (h & n & Hn & Hm & Hstuck).
-  destruct (F h n Hn Hm) as (k & Hk).
+  intros F. destruct eventually_refuted as (b & h & n & Hn & Hm & Hstuck).
+  destruct (F b h n Hn Hm) as (k & Hk).
   assert (Hno : forallb (fun i => negb (is_markh i)) (repeat IInclude k) = true).
   { clear. induction k; [reflexivity | cbn; assumption]. }
   specialize (Hstuck _ Hno). lia.
-Qed.
-
-(* initial height above 1: the includer starts at height 1, which is a hole; nothing at all moves it *)
-Definition holed (s : node) : Prop := di s = 0 /\ K s = 0 /\ exists r, chain s = None :: r.
-
-Lemma holed_effs s : holed s -> include_effs s = [].
-Proof. intros (Hd & _ & (r & Hc)). unfold include_effs. rewrite Hd, Hc. reflexivity. Qed.
-
-Lemma holed_step s i : holed s -> holed (step s i).
-Proof.
-  intros S. pose proof (holed_effs s S) as He. destruct S as (Hd & Hk & (r & Hc)).
-  destruct i as [|x|id da|id da| |k|k|]; cbn [step]; unfold dying; rewrite ?He, ?firstn_nil;
-    cbn [apply_effs fold_left]; repeat split; cbn; try assumption;
-    first [exists r; exact Hc | eexists; rewrite Hc; reflexivity].
-Qed.
-
-Lemma holed_run : forall ext s, holed s -> holed (run_from s ext).
-Proof.
-  induction ext as [|i ext IH]; intros s S; [exact S|].
-  unfold run_from; cbn [fold_left]. apply IH, holed_step, S.
-Qed.
-
-Definition ih_history : list item := [IHole; IAppend {| bh := 1; bd := 0 |}; IMarkH 1 10].
-
-Theorem initial_height_refuted :
-  exists h n,
-    n <= sheight (run h) /\ blocks_marked_ever h n = true /\
-    forall ext, rep (run (h ++ ext)) = 0 /\ rep (run (h ++ ext)) < n.
-Proof.
-  exists ih_history, 2. split; [vm_compute; discriminate|]. split; [vm_compute; reflexivity|].
-  intros ext. rewrite run_app.
-  assert (S : holed (run ih_history)).
-  { unfold holed. vm_compute. repeat split. eexists; reflexivity. }
-  destruct (holed_run ext _ S) as (Hd & _). unfold rep. rewrite Hd. lia.
 Qed.
